@@ -98,6 +98,7 @@ fn family() -> BoxedStrategy<(u8, String, u8, u8)> {
         6 => (date_format(), dt_sep.clone(), time_format(), any::<bool>()).prop_map(|((d, y, g), s, t, rev)| (2u8, if rev { format!("{t}{s}{d}") } else { format!("{d}{s}{t}") }, y, g)),
         1 => Just((2u8, "%c".to_string(), 0u8, 0u8)),
         1 => proptest::sample::select(vec!["%s", "%-s", "%s%.f", "%s.%f"]).prop_map(|s| (2u8, s.to_string(), 3u8, 0u8)),
+        1 => proptest::sample::select(vec!["%F %T %s", "%s = %Y-%m-%d %H:%M:%S%.f", "%T%.6f %s %F"]).prop_map(|s| (2u8, s.to_string(), 3u8, 0u8)),
     ];
     let zone = proptest::sample::select(vec!["%z", "%:z", " %z", " %:z", "  %z", "|%:z"]);
     let zdt = prop_oneof![
@@ -105,6 +106,8 @@ fn family() -> BoxedStrategy<(u8, String, u8, u8)> {
         1 => Just((3u8, "%+".to_string(), 0u8, 0u8)),
         1 => (proptest::sample::select(vec!["%s %z", "%s%:z", "%:z %s"])).prop_map(|s| (3u8, s.to_string(), 3u8, 0u8)),
         1 => (proptest::sample::select(vec!["%c %z", "%Z %c %z"])).prop_map(|s| (3u8, s.to_string(), 0u8, 0u8)),
+        // a timestamp next to the full calendar date, clock time (with seconds) and offset: redundant but consistent
+        1 => (proptest::sample::select(vec!["%Y-%m-%d %H:%M:%S%.f %z = %s", "%s|%F %T %:z", "%F %T%.3f %z %s", "%:z %s %d/%m/%Y %I:%M:%S %p", "%F %T%.9f%:z (%s)", "%s %Y %j %T %z"])).prop_map(|s| (3u8, s.to_string(), 3u8, 0u8)),
     ];
     prop_oneof![2 => d, 2 => t, 3 => ndt, 4 => zdt].boxed()
 }
@@ -139,7 +142,9 @@ fn case() -> BoxedStrategy<PCase> {
         .prop_map(|((kind, fmt, yc, gc), day, t, off, perturb, suffix, do_perturb)| {
             let day = fit_year(day.clamp(cal::min_day() + 400, cal::max_day() - 400), yc, gc);
             let has_ts = fmt.contains("%s") || fmt.contains("%-s");
-            let t = if has_ts { T { secs: t.secs, frac: t.frac % 1_000_000_000 } } else { T { secs: t.secs, frac: if t.secs % 60 == 59 { t.frac } else { t.frac % 1_000_000_000 } } };
+            // a bare timestamp cannot carry a leap second; next to a printed second field it can
+            let prints_second = fmt.contains("%S") || fmt.contains("%T");
+            let t = if has_ts && !prints_second { T { secs: t.secs, frac: t.frac % 1_000_000_000 } } else { T { secs: t.secs, frac: if t.secs % 60 == 59 { t.frac } else { t.frac % 1_000_000_000 } } };
             let off = if kind == 3 { off } else { 0 };
             PCase { fmt, v: V { kind, day, t, off }, perturb: if do_perturb { perturb } else { 0 }, suffix }
         })
@@ -180,8 +185,10 @@ fn perturb_text(s: &str, bits: u64) -> String {
             if !prev_ws {
                 let w = bits >> (k % 64) & 3;
                 k += 2;
-                for _ in 0..w {
-                    out.push(if w == 3 { '\t' } else { ' ' });
+                // surplus white space: spaces, tabs, and now and then other white-space characters
+                let exotic = ['\u{b}', '\u{c}', '\n', '\u{a0}', '\u{85}', '\u{2003}', '\u{3000}', '\r'][(bits >> ((k + 7) % 61) & 7) as usize];
+                for i in 0..w {
+                    out.push(if w == 3 { if i == 1 && bits >> ((k + 11) % 59) & 3 == 0 { exotic } else { '\t' } } else { ' ' });
                 }
             }
             prev_ws = true;
